@@ -28,6 +28,61 @@ def path_facts(g, nid):
     return fs
 
 
+def _root_of(fn, e, subject="self.clord_id"):
+    """Does expression e (in fn) denote the ClOrdID root of `subject`?  The property / the class function applied to it, or a
+    local every definition of which is group 1 of RE_CLORD_ROOT matched on the subject (where it matched) / the subject itself
+    (where it did not)."""
+    t = unparse(e)
+    if subject == "self.clord_id" and t == "self.clord_id_root":
+        return True
+    if re.fullmatch(r"(self|cls|type\(self\)|FIXNewOrderSingle)\.clord_root\(" + re.escape(subject) + r"\)", t):
+        return True
+    if not isinstance(e, ast.Name):
+        return False
+    g = CFG(fn)
+    defs = [n for n in g.nodes if n.kind == "stmt" and isinstance(n.ast, ast.Assign) and len(n.ast.targets) == 1 and unparse(n.ast.targets[0]) == e.id]
+    matchers = {unparse(n.targets[0]) for n in walk_no_nested(fn) if isinstance(n, ast.Assign) and isinstance(n.targets[0], ast.Name)
+                and unparse(n.value) in (f"RE_CLORD_ROOT.match({subject})", f"RE_CLORD_ROOT.fullmatch({subject})")}
+    if not defs or not matchers:
+        return False
+    for n in defs:
+        fs = set()
+        for tt, lab in g.guards(n.id, exc=False):
+            fs |= facts(tt, lab == "true")
+        v = unparse(n.ast.value)
+        if any(v in (f"{m}[1]", f"{m}.group(1)") and (m, True) in fs for m in matchers):
+            continue
+        if v == subject and any((m, False) in fs for m in matchers):
+            continue
+        return False
+    return True
+
+
+def _clord_next_semantic(cn):
+    """increment the per-order counter by one first, then return f"{<root of self.clord_id>}--{<counter>}"; nothing else with an effect."""
+    body = [s_ for s_ in cn.body if not (isinstance(s_, ast.Expr) and isinstance(s_.value, ast.Constant))]
+    if not body or unparse(body[0]) != "self._clord_id_cnt += 1":
+        return False
+    rets = [n for n in walk_no_nested(cn) if isinstance(n, ast.Return)]
+    if len(rets) != 1 or not isinstance(rets[0].value, ast.JoinedStr):
+        return False
+    parts = rets[0].value.values
+    if not (len(parts) == 3 and isinstance(parts[0], ast.FormattedValue) and isinstance(parts[1], ast.Constant) and parts[1].value == "--"
+            and isinstance(parts[2], ast.FormattedValue) and unparse(parts[2].value) == "self._clord_id_cnt"
+            and parts[0].conversion == -1 and parts[0].format_spec is None and parts[2].conversion == -1 and parts[2].format_spec is None):
+        return False
+    for n in walk_no_nested(cn):
+        if isinstance(n, (ast.Assign, ast.AugAssign)) and n is not body[0]:
+            tg = n.targets if isinstance(n, ast.Assign) else [n.target]
+            if not all(isinstance(t_, ast.Name) or (isinstance(t_, ast.Tuple) and all(isinstance(e_, ast.Name) for e_ in t_.elts)) for t_ in tg):
+                return False
+        if isinstance(n, ast.Call) and not unparse(n.func).startswith(("RE_CLORD_ROOT.", "self.clord_root", "cls.clord_root")) and not unparse(n.func).endswith(".group"):
+            return False
+        if isinstance(n, (ast.Await, ast.Delete, ast.Raise, ast.For, ast.While, ast.Try, ast.With)):
+            return False
+    return _root_of(cn, parts[0].value)
+
+
 def run(ctx):
     repo = ctx.repo
     res = Resolver(repo)
@@ -165,7 +220,7 @@ def run(ctx):
     # ---- rule 4: id producer
     cn = repo.func(f"{CLS}.clord_next")
     body = [unparse(s) for s in cn.body if not (isinstance(s, ast.Expr) and isinstance(s.value, ast.Constant))]
-    ok = body == ["self._clord_id_cnt += 1", "return f'{self.clord_id_root}--{self._clord_id_cnt}'"]
+    ok = body == ["self._clord_id_cnt += 1", "return f'{self.clord_id_root}--{self._clord_id_cnt}'"] or _clord_next_semantic(cn)
     ctx.instance(R4, "clord_next[increment then format on the current root]", ok, f"clord_next is {body}: not 'increment by 1, then <root>--<counter>'", loc(cn))
     writers = res.writers_of("_clord_id_cnt")
     ctx.instance(R4, "_clord_id_cnt[writers]", sorted(writers) == [f"{CLS}.__init__", f"{CLS}.clord_next"],
